@@ -1660,15 +1660,23 @@ theorem wo_read_unchanged (b b' : Bus) (o v : U16) (ev : List PEvent) (hk : kind
     · simp [cellReadVal, btCellWrite, btCellRead]
     · rfl
 
-/-- `Teakra::Impl::Reset` leaves the interrupt controller, every MMIO storage word and the
-interrupt-disable flags of the mailbox channels as they were (C17 owns the consequences). -/
-theorem reset_keeps_icu_and_store (b : Bus) :
-    b.reset.per.icu = b.per.icu ∧ b.reset.per.store = b.per.store ∧
-    (∀ ch, b.reset.per.apbpFromCpu.getDisableInterrupt ch = b.per.apbpFromCpu.getDisableInterrupt ch) ∧
+/-- `Teakra::Impl::Reset` clears the interrupt controller, every MMIO storage word and the
+interrupt-disable flags of the mailbox channels; only the host's external memory survives. -/
+theorem reset_clears_icu_and_store (b : Bus) :
+    b.reset.per.icu = {} ∧ b.reset.per.store = Vector.replicate mmioSize 0 ∧
+    (∀ ch, b.reset.per.apbpFromCpu.getDisableInterrupt ch = 0) ∧
     b.reset.ext = b.ext := by
   refine ⟨rfl, rfl, ?_, rfl⟩
   intro ch
   simp [reset, Apbp.reset, Apbp.getDisableInterrupt, DataChannel.reset, DataChannel.getDisableInterrupt]
+
+/-- The pinned upstream `Reset` left all three as they were (repaired in /repo; C17 owns the consequences). -/
+theorem resetUpstream_keeps_icu_and_store (b : Bus) :
+    b.resetUpstream.per.icu = b.per.icu ∧ b.resetUpstream.per.store = b.per.store ∧
+    (∀ ch, b.resetUpstream.per.apbpFromCpu.getDisableInterrupt ch = b.per.apbpFromCpu.getDisableInterrupt ch) := by
+  refine ⟨rfl, rfl, ?_⟩
+  intro ch
+  simp [resetUpstream, Apbp.getDisableInterrupt, DataChannel.getDisableInterrupt]
 
 
 /-! ### non-vacuity -/
